@@ -24,7 +24,7 @@ def one(name):
         rc, out = sh('git apply %s/patch.diff' % d, cwd=wt)
         if rc != 0:
             return name, {'error': 'patch does not apply: ' + out[-200:]}
-        for p in PROPS:
+        for p in ([name[:3]] if os.environ.get('OWN_ONLY') else PROPS):
             env = dict(os.environ, SISMIC_REPO=wt, VERIF_REPLAY_DIR='/tmp/sm_rp_%s' % name, PYTHONDONTWRITEBYTECODE='1')
             rc, out = sh('timeout 1500 ./check %s --tier quick --no-evidence' % p, cwd=VERIF, env=env)
             lines = [l for l in out.splitlines() if l.startswith('VIOLATION')]
@@ -55,8 +55,8 @@ def main():
             row = mat[name]
             if 'error' in row:
                 f.write('| %s | | %s | |\n' % (name, row['error'])); continue
-            caught = [p + ('*' if row[p]['no_failing_input'] else '') for p in PROPS if row[p]['exit'] == 1]
-            other = ['%s=%d' % (p, row[p]['exit']) for p in PROPS if row[p]['exit'] not in (0, 1)]
+            caught = [p + ('*' if row[p]['no_failing_input'] else '') for p in PROPS if p in row and row[p]['exit'] == 1]
+            other = ['%s=%d' % (p, row[p]['exit']) for p in PROPS if p in row and row[p]['exit'] not in (0, 1)]
             f.write('| %s | %s | %s | %s |\n' % (name, name[:3], ', '.join(caught), ', '.join(other)))
         f.write('\n`*` = reported with `no-failing-input-found` (a theorem or the correspondence no longer checks and the search found no concrete failing input for *that* property).\n')
 
